@@ -424,7 +424,9 @@ class SessionHandler:
                     SessionHandler.id += 1
                     return
 
-            SessionHandler.reset()
+            #: A different identity keeps drawing from the same counter: 
+            #: resetting it would hand out <high>;0, <high>;1, ... again.
+            SessionHandler.id += 1
             return
         
         SessionHandler.id += 1
